@@ -247,7 +247,7 @@ PROPS.update({
     ),
     'C13': dict(
         gens=[('louv', 'random', 1500, 25000, 9), ('louv', 'ties', 500, 8000, 10)],
-        spec_fields=[r'ok\.levels', r'ok\.nested', r'ok\.monotone', r'ok\.last'], model_fields=[r'build'],
+        spec_fields=[r'ok\.levels', r'ok\.nested', r'ok\.monotone', r'ok\.last'], model_fields=[r'build', r'parts'],
         nontrivial=lambda req, I: ',' in I.get('parts', ''),
         hist=lambda req, I: graph_hist(req, I) + ['levels.%d' % len(I.get('parts', '').split())],
         rule=LOUV_RULE, assumptions=COMMON_ASSUME[:2] + [
